@@ -24,8 +24,8 @@ func (e *FnEnc) loopFrame(li *loopInfo, pre *State, assume bool) {
 	e.allocClosureAxioms()
 	alloc0 := quoteSym("$alloc")
 	for _, k := range sortedKeys(li.mods) {
-		if k == "$alloc" {
-			continue
+		if k == "$alloc" || strings.HasPrefix(k, "R/") {
+			continue // allocation set / iterator state of a map range: not locations of the program's heap
 		}
 		if _, known := e.heapSort[k]; !known {
 			continue
